@@ -315,3 +315,38 @@ mod if_std {
 
 #[cfg(feature = "std")]
 pub use self::if_std::*;
+
+#[cfg(all(futures_intrusive_verif, feature = "alloc"))]
+mod verif_hooks {
+    use super::*;
+    use crate::verif::{
+        snap_list, snap_list_node, waker_id, NodeSnap, Snapshot,
+    };
+
+    fn describe(entry: &WaitQueueEntry) -> (u8, Option<usize>, u64) {
+        let tag = match entry.state {
+            PollState::New => 0,
+            PollState::Waiting => 1,
+            PollState::Done => 2,
+        };
+        (tag, waker_id(&entry.task), 0)
+    }
+
+    impl<MutexType: RawMutex> GenericManualResetEvent<MutexType> {
+        /// Scalars: `[is_set]`, queue: waiters
+        pub fn verif_snapshot(&self) -> Snapshot {
+            let state = self.inner.lock();
+            let mut snap = Snapshot::default();
+            snap.scalars.push(state.is_set as u64);
+            snap_list(&state.waiters, &mut snap, &describe);
+            snap
+        }
+    }
+
+    impl<'a, MutexType: RawMutex> GenericWaitForEventFuture<'a, MutexType> {
+        /// Describes the wait node of this future
+        pub fn verif_node(&self) -> NodeSnap {
+            snap_list_node(&self.wait_node, &describe)
+        }
+    }
+}
